@@ -335,6 +335,9 @@ func (E *Engine) addrWrites(v ssa.Value, tenv TEnv, w *writeSet) {
 }
 
 func (E *Engine) instrWrites(fn *ssa.Function, in ssa.Instruction, tenv TEnv, w *writeSet) {
+	if E.logVarargs(fn)[in] {
+		return
+	}
 	switch t := in.(type) {
 	case *ssa.Store:
 		E.addrWrites(t.Addr, tenv, w)
